@@ -768,6 +768,17 @@ func (c *Canonicalizer) writeFunctionSignature(fn *ssa.Function) {
 		c.output.WriteString(fmt.Sprintf("%s: %s", c.registerMap[p], sanitizeType(p.Type())))
 	}
 	c.output.WriteString(")")
+	// Captured variables are inputs too: their types decide what the body computes.
+	if len(fn.FreeVars) > 0 {
+		c.output.WriteString(" [")
+		for i, fv := range fn.FreeVars {
+			if i > 0 {
+				c.output.WriteString(", ")
+			}
+			c.output.WriteString(fmt.Sprintf("%s: %s", c.registerMap[fv], sanitizeType(fv.Type())))
+		}
+		c.output.WriteString("]")
+	}
 	sig := fn.Signature
 	if sig.Results().Len() > 0 {
 		c.output.WriteString(" -> (")
